@@ -1,4 +1,5 @@
 import Vata.Parse
+import Vata.Generated.Tables
 /-! # Driver side of the BDD-encoding checks: `bddincl`, `bddinclall` (C07), `bddh`, `bddtd` (C08) -/
 open Vata
 
@@ -32,8 +33,8 @@ def checkIncl (args res : List String) : Except String (List String × String) :
   pure (f, s!"incl={bchar exp} emptyA={bchar eA} overrun={over}")
 
 /-- implemented option words (regenerated table: see `Vata/Generated/Tables.lean` when present) -/
-def implTD : List Nat := [10, 14, 26, 30]
-def implBU : List Nat := [0, 16, 26]
+def implTD : List Nat := Vata.Gen.tdDispatch.map (·.word)
+def implBU : List Nat := Vata.Gen.buDispatch.map (·.word)
 
 def checkInclAll (args res : List String) : Except String (List String × String) := do
   let A ← getE (args[0]? >>= parseTA?) "bad A"
